@@ -24,8 +24,11 @@ type sshCase struct {
 	Payload                      []byte
 	ClientRekey                  string // RekeyLimit value ("" = default)
 	ServerRekey                  uint64 // Config.RekeyThreshold (0 = default)
-	KnownHosts                   string // override (negative control)
-	Identity                     string // override (negative control)
+	// Offers: comma lists given to the client instead of the single pinned
+	// algorithm (preference-order cases); Kex etc. then hold the expectation.
+	KexOffer, HostKeyOffer, CipherOffer, MACOffer string
+	KnownHosts                                    string // override (negative control)
+	Identity                                      string // override (negative control)
 }
 
 // sshResult is what came back.
@@ -63,7 +66,13 @@ func (c *sshCase) args(mt *material, port int) []string {
 		"-o", "ControlMaster=no", "-o", "ControlPath=none", "-o", "EscapeChar=none",
 		"-o", "NumberOfPasswordPrompts=0", "-o", "ServerAliveInterval=0", "-o", "TCPKeepAlive=no",
 		"-p", strconv.Itoa(port)}
-	for _, o := range [][2]string{{"KexAlgorithms", c.Kex}, {"HostKeyAlgorithms", c.HostKeyAlg}, {"Ciphers", c.Cipher}, {"MACs", c.MAC}} {
+	pick := func(offer, pin string) string {
+		if offer != "" {
+			return offer
+		}
+		return pin
+	}
+	for _, o := range [][2]string{{"KexAlgorithms", pick(c.KexOffer, c.Kex)}, {"HostKeyAlgorithms", pick(c.HostKeyOffer, c.HostKeyAlg)}, {"Ciphers", pick(c.CipherOffer, c.Cipher)}, {"MACs", pick(c.MACOffer, c.MAC)}} {
 		if o[1] != "" {
 			a = append(a, "-o", o[0]+"="+o[1])
 		}
